@@ -96,13 +96,17 @@ def vidx(prog: Program, res: Result) -> int:
             return e.id if isinstance(e, ast.Name) else None
         for lp in [n for n in after if isinstance(n, (ast.For, ast.comprehension))]:
             it, tg = lp.iter, lp.target
-            pairs = []
-            if isinstance(it, ast.Call) and (dotted(it.func) or "") == "zip" and isinstance(tg, (ast.Tuple, ast.List)) and len(tg.elts) == len(it.args):
-                pairs = list(zip(tg.elts, it.args))
-            elif isinstance(it, ast.Call) and (dotted(it.func) or "") == "enumerate" and isinstance(tg, (ast.Tuple, ast.List)) and len(tg.elts) == 2 and it.args:
-                pairs = [(tg.elts[1], it.args[0])]
-            else:
-                pairs = [(tg, it)]
+
+            def pairs_of(tg, it, depth=0):
+                """(target name, sequence it is an element of), through zip / enumerate and nested unpacking."""
+                if depth > 3:
+                    return []
+                if isinstance(it, ast.Call) and (dotted(it.func) or "") == "zip" and isinstance(tg, (ast.Tuple, ast.List)) and len(tg.elts) == len(it.args):
+                    return [p_ for t_, a_ in zip(tg.elts, it.args) for p_ in pairs_of(t_, a_, depth + 1)]
+                if isinstance(it, ast.Call) and (dotted(it.func) or "") == "enumerate" and isinstance(tg, (ast.Tuple, ast.List)) and len(tg.elts) == 2 and it.args:
+                    return pairs_of(tg.elts[1], it.args[0], depth + 1)
+                return [(tg, it)]
+            pairs = pairs_of(tg, it)
             for t_, a_ in pairs:
                 if isinstance(t_, ast.Name):
                     sq = seq_of(a_)
